@@ -325,10 +325,15 @@ type kfSeq struct {
 	trace  []string // the operations so far, for the failure message
 	serial string   // serialised form of the object under test before the sequence
 	wrong  []string // the wrong passwords of this sequence (a small set: the reference KDF is cached per password)
+	state  string   // manager sequences: the state the manager was driven into before the current operation
 }
 
 func (s *kfSeq) fail(format string, a ...interface{}) {
-	s.c.Fail("C19 sequence %d [%s] (entropy %x, password %q): %s", s.id, strings.Join(s.trace, " "), s.o.entropy, s.o.pw, fmt.Sprintf(format, a...))
+	st := ""
+	if s.state != "" {
+		st = ", manager state before the last operation: " + s.state
+	}
+	s.c.Fail("C19 sequence %d [%s] (entropy %x, password %q%s): %s", s.id, strings.Join(s.trace, " "), s.o.entropy, s.o.pw, st, fmt.Sprintf(format, a...))
 }
 
 // checkObject: the object still is the key file it was
@@ -429,6 +434,7 @@ func walletSequence(c *Ctx, dir string, id int, entropy []byte, pw string, mode 
 		n = 4 + c.R.Intn(5)
 	}
 	var lastKs *wallet.KeyStore // the last key store handed out to the caller (not the one the manager keeps)
+	mgrState := "locked"        // coverage: locked / unlocked / unlocked-then-locked / restarted, "+wrong-attempt"
 	for i := 0; i < n; i++ {
 		var op string
 		if ops != nil {
@@ -445,10 +451,16 @@ func walletSequence(c *Ctx, dir string, id int, entropy []byte, pw string, mode 
 		s.trace = append(s.trace, op)
 		c.Hit("seq-op:" + op)
 		switch op {
-		case "D+", "D-", "G+", "G-", "U+", "U-":
+		case "D+", "D-", "D0", "G+", "G-", "G0", "U+", "U-", "U0":
 			try := pw
 			if op[1] == '-' {
 				try = s.pickWrong()
+			} else if op[1] == '0' {
+				try = "" // the empty password (the right one only for a file created with it)
+			}
+			if m != nil {
+				c.Hit("seq-state:" + mgrState + ":" + op)
+				s.state = mgrState
 			}
 			dk, otok := o.oracle(try)
 			var ent []byte
@@ -508,10 +520,37 @@ func walletSequence(c *Ctx, dir string, id int, entropy []byte, pw string, mode 
 			}
 			c.Emit("wl-seq-op %c %s %s %s | %s %s", op[0], hx([]byte(try)), hx(dk), otok, obs, kfFieldsTok(kf))
 			s.checkOutcome(opName, try, ent, kind)
+			if m != nil {
+				// the state of the manager as the harness drove it (coverage only)
+				switch {
+				case op[0] == 'U' && try == pw:
+					mgrState = "unlocked"
+				case try != pw && !strings.HasSuffix(mgrState, "+wrong-attempt"):
+					mgrState += "+wrong-attempt"
+				}
+			}
 		case "L":
 			safely(func() { m.Lock(name) })
 			kf, _ = m.GetKeyFile(name)
 			c.Emit("wl-seq-op L | %s", kfFieldsTok(kf))
+			if strings.HasPrefix(mgrState, "unlocked") {
+				mgrState = "unlocked-then-locked"
+			}
+		case "X":
+			// the node restarts: a new Manager over the same directory (everything is locked again)
+			safely(func() { m.Stop() })
+			m = wallet.New(&wallet.Config{WalletDir: sub})
+			if err := m.Start(); err != nil {
+				s.fail("Manager.Start after a restart: %v", err)
+				return
+			}
+			var gerr error
+			if kf, gerr = m.GetKeyFile(name); gerr != nil {
+				s.fail("Manager.GetKeyFile after a restart: %v", gerr)
+				return
+			}
+			c.Emit("wl-seq-op L | %s", kfFieldsTok(kf))
+			mgrState = "restarted"
 		case "S":
 			// the caller wipes the secret it was handed (good practice); this must not reach into the key file
 			if lastKs != nil {
@@ -557,10 +596,39 @@ func walletSequence(c *Ctx, dir string, id int, entropy []byte, pw string, mode 
 	}
 }
 
+// seqStateMatrix: ONE manager, EVERY password-taking entry point (Manager.GetKeyFileAndDecrypt, KeyFile.Decrypt on the
+// manager's object, Manager.Unlock) with a wrong, the empty and the right password in EVERY state of the manager:
+// never unlocked, unlocked, unlocked then locked, locked / unlocked after a wrong attempt, unlocked twice, unlocked with a
+// handed-out key store wiped by the caller, locked and unlocked again, after a restart of the manager. In each state the
+// refusals are asked for first (they must not depend on the state, and must not change it), the right password last.
+func seqStateMatrix() []string {
+	probes := []string{"G-", "D-", "U-", "G0", "D0", "U0", "G+", "D+", "U+"}
+	var ops []string
+	for _, transition := range [][]string{
+		{},           // never unlocked
+		{},           // unlocked (by the U+ that ended the block before)
+		{"L"},        // unlocked, then locked
+		{"L", "U-"},  // locked, after a wrong attempt
+		{"U-"},       // unlocked, after a wrong attempt
+		{"L", "G-"},  // locked, after a wrong GetKeyFileAndDecrypt
+		{"U+"},       // unlocked twice
+		{"G+", "S"},  // unlocked; the caller wiped the key store it was handed
+		{"L", "U+"},  // locked and unlocked again
+		{"X"},        // manager restarted
+		{"X", "U+", "X"}, // restarted while unlocked
+	} {
+		ops = append(ops, transition...)
+		ops = append(ops, probes...)
+	}
+	return ops
+}
+
 var seqDirected = []struct {
 	mode string
 	ops  []string
 }{
+	{"manager", seqStateMatrix()},
+	{"manager", []string{"U+", "G-", "G0", "G+", "S", "G+", "U+", "L", "G-", "G+"}},
 	{"manager", []string{"U+", "L", "U+"}},
 	{"object", []string{"D-", "D+"}},
 	{"object", []string{"D+", "W", "D+"}},
@@ -570,7 +638,7 @@ var seqDirected = []struct {
 }
 
 func walletSequences(c *Ctx, dir string) {
-	n := c.N / 50
+	n := c.N/50 + 2 // the two manager state sequences at the head of seqDirected come on top
 	if v, ok := c.Args["sequences"]; ok {
 		fmt.Sscan(v, &n)
 	}
